@@ -1,15 +1,23 @@
 import inspect
 import typing
-from typing import Any, Dict, Optional, Tuple, Type, TypeVar
+from typing import Any, Dict, List, Optional, Tuple, Type, TypeVar
 from typing import get_args, get_origin
 
 
 def is_iterable(t: Type) -> bool:
     "Is this type iterable?"
-    while (t is not Any) and (not _is_iterable_direct(t)):
-        t = get_inherited(t)
+    return _find_iterable(t) is not Any
 
-    return t is not Any
+
+def _find_iterable(t: Type) -> Type:
+    "The `Iterable[X]` that `t` is, or that one of the classes it inherits from is (else `Any`)"
+    if t is Any or _is_iterable_direct(t):
+        return t
+    for inherited in _inherited_types(t):
+        found = _find_iterable(inherited)
+        if found is not Any:
+            return found
+    return Any  # type: ignore
 
 
 def _is_iterable_direct(t: Type) -> bool:
@@ -18,7 +26,7 @@ def _is_iterable_direct(t: Type) -> bool:
 
 
 def get_inherited(t: Type) -> Type:
-    """Returns the inherited type of `t`
+    """Returns the inherited type of `t` (the first one, if it has several base classes)
 
     Notes:
     * This works for 3.7 forward (but not back!)
@@ -29,18 +37,29 @@ def get_inherited(t: Type) -> Type:
     Returns:
         Type: The type for an inherited class, or `Any` if none can be found
     """
+    inherited = _inherited_types(t)
+    return inherited[0] if len(inherited) > 0 else Any  # type: ignore
+
+
+def _inherited_types(t: Type) -> List[Type]:
+    "All the types `t` inherits from, in the order the class lists them (`Generic[..]` is none)"
     if hasattr(t, "__orig_bases__"):
         base_classes = getattr(t, "__orig_bases__", None)
     elif hasattr(t, "__origin__") and hasattr(t.__origin__, "__orig_bases__"):
         base_classes = t.__origin__.__orig_bases__
     else:
-        return Any  # type: ignore
+        return []
 
-    r = base_classes[0]  # type: ignore
-    if get_origin(r) is typing.Generic:
-        # `class C(Generic[T])` - there is nothing to inherit from
-        return Any  # type: ignore
+    # `class C(Generic[T])` - there is nothing to inherit from
+    return [
+        _inherited_type(t, r)
+        for r in base_classes  # type: ignore
+        if get_origin(r) is not typing.Generic
+    ]
 
+
+def _inherited_type(t: Type, r: Type) -> Type:
+    "The base class `r` of `t`, with what is known of `t`'s type arguments filled in"
     g_args = get_args(t)
     if len(g_args) > 0 and get_origin(r) is not None:
         # The arguments of `t` belong to the type variables of `t`'s own class, in the order
@@ -69,8 +88,7 @@ def unwrap_iterable(t: Type) -> Type:
     "Unwrap an iterable type"
     # Try to find an iterable in the history somehow
 
-    while (t is not Any) and (not _is_iterable_direct(t)):
-        t = get_inherited(t)
+    t = _find_iterable(t)
 
     if t == Any:
         return Any  # type: ignore
@@ -100,21 +118,28 @@ def build_type_dict_from_type(t: Type, at_class: Optional[Type] = None) -> Dict[
         if at_class is not None:
             # A concrete subclass of a generic class (`class IntList(MyList[int])`) - the
             # parameters are found on the class it inherits from.
-            inherited = get_inherited(t)
-            if inherited is not Any:
-                return build_type_dict_from_type(inherited, at_class)
-            raise TypeError(f"Could not find type {str(at_class)} in {str(t)}")
+            return _type_dict_from_inherited(t, at_class)
         return {}
 
     if at_class is not None and generic_type is not at_class:
         try:
-            return build_type_dict_from_type(get_inherited(t), at_class)
+            return _type_dict_from_inherited(t, at_class)
         except TypeError as e:
             raise TypeError(f"Looked for generic parameters in {str(t)}") from e
 
     for a in zip(generic_type.__parameters__, get_args(t)):
         d[a[0].__name__] = a[1]
     return d
+
+
+def _type_dict_from_inherited(t: Type, at_class: Type) -> Dict[str, TypeVar]:
+    "The type variables of `at_class`, found by way of one of the classes `t` inherits from"
+    for inherited in _inherited_types(t):
+        try:
+            return build_type_dict_from_type(inherited, at_class)
+        except TypeError:
+            pass
+    raise TypeError(f"Could not find type {str(at_class)} in {str(t)}")
 
 
 def _resolve_type(t: Type, parameters: Dict[str, Type]) -> Optional[Type]:
